@@ -248,6 +248,11 @@ func (e *Exec) safety(st *State, kind string, goal *Term, n ast.Node) {
 	if e.contract != nil && len(e.contract.SafetyTags) > 0 {
 		tags = e.contract.SafetyTags
 	}
+	if kind == "overflow" {
+		// not a run-time failure: it justifies treating machine arithmetic as mathematical, which
+		// every clause of this function relies on
+		tags = nil
+	}
 	e.oblige(st, kind, label, goal, n, tags)
 }
 
